@@ -244,9 +244,18 @@ class Runner:
         if isinstance(sp, Discrete):
             n = sp.n
             phase = (i // jnp.maximum(period, 1)) % 2
-            return lax.switch(jnp.clip(mode, 0, 5), [lambda: samp, lambda: jnp.zeros_like(samp), lambda: jnp.full_like(samp, n - 1),
+            def cruise():
+                # CartPole only: bang-bang controller that keeps the pole up while the cart cruises towards a track limit
+                # (random or constant actions drop the pole long before the cart position gets anywhere near its bound)
+                if self.cls["env"] != "CartPole":
+                    return samp
+                o = jnp.ravel(env.observation(state, key=key))
+                vt = jnp.where(period % 2 == 0, 2.0, -2.0)
+                return (o[2] + 0.3 * o[3] + 0.03 * (o[1] - vt) > 0).astype(samp.dtype)
+
+            return lax.switch(jnp.clip(mode, 0, 6), [lambda: samp, lambda: jnp.zeros_like(samp), lambda: jnp.full_like(samp, n - 1),
                                                      lambda: jnp.where(phase == 0, 0, n - 1).astype(samp.dtype), lambda: samp,
-                                                     lambda: self._greedy(env, state, key, [jnp.full_like(samp, k) for k in range(n)])])
+                                                     lambda: self._greedy(env, state, key, [jnp.full_like(samp, k) for k in range(n)]), cruise])
         return samp
 
     def _rollout(self, env, key, mode, period):
@@ -290,7 +299,8 @@ class Runner:
     # ------------------------------------------------------------------ plans
 
     def gen(self, rng, prop: str) -> dict:
-        return {"scenario": NAME, "cls": self.cls, "ops": [{"op": "roll", "key": rng.getrandbits(31), "mode": rng.choice([0, 0, 1, 2, 3, 3, 4, 5, 5, 5]), "period": rng.choice([1, 2, 5, 20, 50])}
+        modes = [0, 0, 1, 2, 3, 3, 4, 5, 5, 5] + ([6, 6, 6, 6] if self.cls["env"] == "CartPole" else [])
+        return {"scenario": NAME, "cls": self.cls, "ops": [{"op": "roll", "key": rng.getrandbits(31), "mode": rng.choice(modes), "period": rng.choice([1, 2, 5, 20, 50])}
                                                              for _ in range(rng.randint(1, 2))], "faults": []}
 
     def shrink_candidates(self, plan: dict):
